@@ -8,6 +8,7 @@
 -/
 import EEM.Real
 import EEM.Model.Metrics
+import EEM.Gen.MetricFormulas
 import Mathlib.Tactic.Linarith
 import Mathlib.Tactic.Ring
 import Mathlib.Tactic.FieldSimp
@@ -220,6 +221,101 @@ theorem C16_hourly_dq_iff (cv pn : Option ℝ) (cvThr pnThr : ℝ) :
 theorem C16_daily_dq_iff (c thr : ℝ) : dailyDisqualified c thr = true ↔ thr < c := by
   unfold dailyDisqualified
   simp [gtb_iff]
+
+
+/-! ### T1: the derived statistics of the SOURCE (`EEM.Gen.MetricFormulas`, regenerated from the AST of
+`BaselineMetrics` on every run) are the model's statistics, on the model's base quantities -/
+
+namespace MF
+export EEM.Gen.MetricFormulas (ddof ddof_autocorr nmae pnmae mbe nmbe pnmbe sse mse rmse rmse_adj rmse_autocorr_adj cvrmse
+  cvrmse_adj cvrmse_autocorr_adj pnrmse pnrmse_adj pnrmse_autocorr_adj r_squared_adj)
+end MF
+
+/-- unadjusted statistics: the source's formula chain, evaluated on the base quantities of a series, is
+literally the model's definition (any series, any parameter count) -/
+theorem C16_src_unadjusted (ps : List (ℝ × ℝ)) (k : Nat) (np : ℝ) :
+    MF.sse (baseOf ps k np) = sse ps ∧ MF.mse (baseOf ps k np) = mse ps ∧ MF.rmse (baseOf ps k np) = rmse ps ∧
+    MF.mbe (baseOf ps k np) = mbe ps ∧ MF.cvrmse (baseOf ps k np) = cvrmse ps ∧ MF.pnrmse (baseOf ps k np) = pnrmse ps ∧
+    MF.nmae (baseOf ps k np) = nmae ps ∧ MF.nmbe (baseOf ps k np) = nmbe ps :=
+  ⟨rfl, rfl, rfl, rfl, rfl, rfl, rfl, rfl⟩
+
+/-- the source's float `ddof` (`n − k`, raised to 1 when below 1) is the model's integer `max(n − k, 1)` -/
+theorem C16_src_ddof (ps : List (ℝ × ℝ)) (k : Nat) (np : ℝ) :
+    MF.ddof (baseOf ps k np) = ((ddof ps k : ℕ) : ℝ) := by
+  unfold EEM.Gen.MetricFormulas.ddof baseOf nOf ddof
+  simp only [arith_ofNat, sub_eq, ofNat_eq, Nat.cast_one]
+  by_cases h : k + 1 ≤ ps.length
+  · have h1 : ¬ ((ps.length : ℝ) - (k : ℝ) < 1) := by
+      have : ((k + 1 : ℕ) : ℝ) ≤ (ps.length : ℝ) := by exact_mod_cast h
+      push_cast at this
+      linarith
+    have h2 : ¬ (ps.length - k < 1) := by omega
+    have hb : Arith.ltb ((ps.length : ℝ) - (k : ℝ)) 1 = false := by
+      rw [Bool.eq_false_iff]; intro hc; exact h1 ((ltb_iff _ _).mp hc)
+    rw [if_neg h2]
+    simp only [hb, Bool.false_eq_true, if_false]
+    rw [Nat.cast_sub (by omega)]
+  · have h1 : (ps.length : ℝ) - (k : ℝ) < 1 := by
+      have : (ps.length : ℝ) ≤ (k : ℝ) := by exact_mod_cast (by omega : ps.length ≤ k)
+      linarith
+    have h2 : ps.length - k < 1 := by omega
+    have hb : Arith.ltb ((ps.length : ℝ) - (k : ℝ)) 1 = true := (ltb_iff _ _).mpr h1
+    rw [if_pos h2]
+    simp only [hb, if_true, Nat.cast_one]
+
+/-- adjusted statistics: the source's chain through its float `ddof` is the model's through `max(n − k, 1)` -/
+theorem C16_src_adjusted (ps : List (ℝ × ℝ)) (k : Nat) (np : ℝ) :
+    MF.rmse_adj (baseOf ps k np) = rmseAdj ps k ∧ MF.cvrmse_adj (baseOf ps k np) = cvrmseAdj ps k ∧
+    MF.pnrmse_adj (baseOf ps k np) = pnrmseAdj ps k := by
+  have h : MF.rmse_adj (baseOf ps k np) = rmseAdj ps k := by
+    show Carrier.sqrt (EEM.Gen.MetricFormulas.sse (baseOf ps k np) / EEM.Gen.MetricFormulas.ddof (baseOf ps k np)) = _
+    have := C16_src_ddof ps k np
+    rw [this]
+    rfl
+  refine ⟨h, ?_, ?_⟩
+  · show Gen.safe_divide (EEM.Gen.MetricFormulas.rmse_adj (baseOf ps k np)) _ _ = _
+    rw [h]; rfl
+  · show Gen.safe_divide (EEM.Gen.MetricFormulas.rmse_adj (baseOf ps k np)) _ _ = _
+    rw [h]; rfl
+
+/-- the autocorrelation-corrected degrees of freedom never fall below 1, for ANY base quantities -/
+theorem C16_src_ddof_autocorr_ge_one (b : EEM.Model.MetricBase ℝ) : 1 ≤ MF.ddof_autocorr b := by
+  unfold EEM.Gen.MetricFormulas.ddof_autocorr
+  simp only [sub_eq, ofNat_eq, Nat.cast_one]
+  by_cases h : b.n_prime - b.num_model_params < 1
+  · have hb : Arith.ltb (b.n_prime - b.num_model_params) 1 = true := (ltb_iff _ _).mpr h
+    simp only [hb, if_true, le_refl]
+  · have hb : Arith.ltb (b.n_prime - b.num_model_params) 1 = false := by
+      rw [Bool.eq_false_iff]; intro hc; exact h ((ltb_iff _ _).mp hc)
+    simp only [hb, Bool.false_eq_true, if_false]
+    exact not_lt.mp h
+
+/-- **rmse_autocorr_adj² · ddof_autocorr = sse** for any base quantities with a non-negative sum of squares -/
+theorem C16_src_rmse_autocorr_adj_sq (b : EEM.Model.MetricBase ℝ) (hs : 0 ≤ b.residuals_sum_squared) :
+    MF.rmse_autocorr_adj b ^ 2 * MF.ddof_autocorr b = b.residuals_sum_squared := by
+  have hd : (0 : ℝ) < MF.ddof_autocorr b := lt_of_lt_of_le one_pos (C16_src_ddof_autocorr_ge_one b)
+  show (Carrier.sqrt (EEM.Gen.MetricFormulas.sse b / EEM.Gen.MetricFormulas.ddof_autocorr b)) ^ 2 * _ = _
+  simp only [carrier_sqrt, div_eq, EEM.Gen.MetricFormulas.sse]
+  rw [Real.sq_sqrt (div_nonneg hs hd.le)]
+  field_simp
+
+/-- **adjusted R²**: whenever the source reports it, it is `1 − (1 − R²)(n − 1)/(ddof − 1)` -/
+theorem C16_src_r_squared_adj (b : EEM.Model.MetricBase ℝ) (q : ℝ) (h : MF.r_squared_adj b = some q) :
+    q = 1 - (1 - b.r_squared) * (b.n - 1) / (MF.ddof b - 1) := by
+  unfold EEM.Gen.MetricFormulas.r_squared_adj at h
+  simp only [Option.map_eq_some_iff] at h
+  obtain ⟨x, hx, rfl⟩ := h
+  rw [C16_safe_divide_some _ _ _ _ hx]
+  simp only [sub_eq, mul_eq, ofNat_eq, Nat.cast_one]
+
+/-- … and it is withheld only when `ddof − 1` is at most `min_denominator` while the numerator is large -/
+theorem C16_src_r_squared_adj_none_iff (b : EEM.Model.MetricBase ℝ) :
+    MF.r_squared_adj b = none ↔
+      (MF.ddof b - 1 ≤ b.min_denominator ∧ 10 * b.min_denominator < (1 - b.r_squared) * (b.n - 1)) := by
+  unfold EEM.Gen.MetricFormulas.r_squared_adj
+  simp only [Option.map_eq_none_iff]
+  rw [C16_safe_divide_none_iff]
+  simp only [sub_eq, mul_eq, ofNat_eq, Nat.cast_one]
 
 /-! ### Non-vacuity -/
 example : finitePairs [(some (1:ℝ), some 2), (none, some 3), (some 3, some 2)] ≠ [] := by
